@@ -85,6 +85,8 @@ def run(name, checks):
             print(f"  {c}: exit {rc} ({res[c]['s']} s) {detail[:150]}", flush=True)
     finally:
         sh("git checkout -q -- . ", cwd="/repo")
+        # the checks rewrote the evidence files while the change was applied: restore the committed ones
+        sh("git checkout -q -- evidence", cwd=VERIF)
         # files the patch created are untracked in /repo: remove exactly those
         lines = open(f"{d}/patch.diff").read().splitlines()
         for k, l in enumerate(lines):
